@@ -211,9 +211,9 @@ def concrete_payload(ident, choose, rnd, spare=1):
 def random_msm_cases(ident, seed, n):
     """seeded concrete MSM payloads with deliberately awkward masks: last satellite slot, reserved IDs, several signals of one band,
     partial cell masks.  Used as additional concrete witnesses (replayed on the unmodified code), never as the deciding step."""
-    from pyrtcm.rtcmtables import PRNSIGMAP
+    from . import concrete
     rnd = random.Random(seed * 977 + int(ident))
-    sigmap = PRNSIGMAP[ident[:3]][1]
+    sigmap = concrete.repo_maps(ident[:3])[1] or {2: ("L1", "1C")}
     bands = {}
     for sid, (band, _) in sigmap.items():
         bands.setdefault(band, []).append(sid)
